@@ -174,6 +174,32 @@ func (vc *FuncVC) execBuiltin(st *State, reach Term, ins *ssa.Call, b *ssa.Built
 		c := vc.fresh("len", SInt)
 		vc.assume(And(Ge(c, IntLit(0)), Lt(c, BigLit(pow2big(62)))))
 		vc.vals[ins] = &Val{T: c, GoType: ins.Type()}
+	case "append":
+		// append(s, t...) for slices of scalars: a fresh backing array; the first eight elements are
+		// modelled exactly (s's, then t's), later ones are unconstrained
+		if len(args) == 2 {
+			sv, tv := vc.val(args[0]), vc.val(args[1])
+			if sl, ok := ins.Type().Underlying().(*types.Slice); ok && sv.Kind == vSlice && tv.Kind == vSlice {
+				if es, sc := scalarSort(sl.Elem()); sc {
+					key := cellKey(sl.Elem())
+					ls, lt := sv.Elems[1].T, tv.Elems[1].T
+					ps, pt := sv.Elems[0].T, tv.Elems[0].T
+					n := vc.define("applen", Add(ls, lt))
+					p := st.cnt
+					st.cnt = vc.define("cnt", Add(st.cnt, Add(n, IntLit(1))))
+					old := st.clone()
+					for k := int64(0); k < 8; k++ {
+						kk := IntLit(k)
+						v := Ite(Lt(kk, ls), vc.load(old, key, Add(ps, kk), es), vc.load(old, key, Add(pt, Sub(kk, ls)), es))
+						vc.storeLeaf(st, key, Add(p, kk), v)
+					}
+					vc.vals[ins] = &Val{Kind: vSlice, Elems: []*Val{{T: p}, {T: n}}, GoType: ins.Type()}
+					return
+				}
+			}
+		}
+		vc.note("builtin %s modelled as unconstrained at %s", b.Name(), vc.pos(ins.Pos()))
+		vc.vals[ins] = vc.freshVal("builtin_"+b.Name(), ins.Type())
 	default:
 		vc.note("builtin %s modelled as unconstrained at %s", b.Name(), vc.pos(ins.Pos()))
 		vc.vals[ins] = vc.freshVal("builtin_"+b.Name(), ins.Type())
@@ -186,6 +212,15 @@ func (vc *FuncVC) execLibrary(st *State, reach Term, ins *ssa.Call, callee *ssa.
 	rt := ins.Type()
 	u64 := BigLit(pow2_64)
 	switch name {
+	case "strings.HasPrefix":
+		// a deterministic (uninterpreted) function of the two string codes, nameable in contracts as uf_hasprefix(s, p) == 1
+		fname := "uf_hasprefix_2"
+		if !vc.declared[fname] {
+			vc.declared[fname] = true
+			vc.decls = append(vc.decls, "(declare-fun "+fname+" (Int Int) Int)")
+		}
+		vc.vals[ins] = &Val{T: Eq(app(SInt, fname, vc.scalar(args[0]), vc.scalar(args[1])), IntLit(1)), GoType: rt}
+		return
 	case "errors.New", "fmt.Errorf":
 		c := vc.fresh("err", SInt)
 		vc.assume(Ne(c, IntLit(0)))
